@@ -1,0 +1,9 @@
+//go:build !verif
+
+package cpr
+
+// hookYield and hookTrace are verification hooks. They do nothing unless the
+// package is built with the `verif` build tag (see hook_verif.go).
+func hookYield() {}
+
+func hookTrace(event string, stage int) {}
